@@ -28,32 +28,52 @@ def StratData.adjust (sd : StratData α) (a : Adj α) : StratData α :=
             lastFee := sd.lastFee + a.fee,
             netFlows := if a.flow then sd.netFlows + a.amount else sd.netFlows }
 
+/-- date change: read the row of the new date (l.1403-1418). -/
+def secDateChange (d : Nat) (s : SecData α) : SecData α :=
+  if s.now != some d then
+    { s with now := some d, price := cell s.prices d,
+             bidoffer := if s.bidofferSet then cell s.bidoffers d else s.bidoffer,
+             bidofferPaid := if s.bidofferSet then 0 else s.bidofferPaid }
+  else s
+
+/-- position row and `_last_pos` (l.1420-1421). -/
+def secRecordPos (d : Nat) (s : SecData α) : SecData α :=
+  { s with rPosition := s.rPosition.set d s.position, lastPos := s.position }
+
+/-- the value a marked security gets (l.1423-1429); raises on NaN price with an open position. -/
+def secMarkValue (cfg : Cfg α) (s : SecData α) : Except Err α :=
+  match s.price with
+  | none => if isZero cfg.tol s.position then pure 0 else throw Err.nanPriceOpenPosition
+  | some p => pure (s.position * p * s.mult)
+
+/-- value, notional and their rows (l.1431-1434). -/
+def secSetValue (d : Nat) (v : α) (s : SecData α) : SecData α :=
+  { s with value := v, notl := v, rValue := s.rValue.set d v, rNotl := s.rNotl.set d v }
+
+/-- the needupdate shortcut (l.1436-1437). -/
+def secQuiet (cfg : Cfg α) (s : SecData α) : SecData α :=
+  if isZero cfg.tol s.weight && isZero cfg.tol s.position then { s with needupdate := false } else s
+
+/-- outlay accumulator flushed into the date's row (l.1440-1443). -/
+def secFlushOutlay (d : Nat) (s : SecData α) : SecData α :=
+  if !(eqA s.outlayAcc 0) then
+    { s with rOutlay := s.rOutlay.set d ((s.rOutlay.getD d 0) + s.outlayAcc), outlayAcc := 0 }
+  else s
+
+/-- bid/offer-paid row (l.1445-1446). -/
+def secRowBidoffer (d : Nat) (s : SecData α) : SecData α :=
+  if s.bidofferSet then { s with rBidofferPaid := s.rBidofferPaid.set d s.bidofferPaid } else s
+
+/-- the early-return test of `SecurityBase.update` (l.1393). -/
+def secEarly (d : Nat) (s : SecData α) : Bool := s.now == some d && eqA s.lastPos s.position
+
 /-- SecurityBase.update proper (l.1384-1446). -/
 def secBaseUpdate (cfg : Cfg α) (d : Nat) (s : SecData α) : Except Err (SecData α) :=
-  if s.now == some d && eqA s.lastPos s.position then pure s
+  if secEarly d s then pure s
   else
-    let s1 : SecData α :=
-      if s.now != some d then
-        { s with now := some d, price := cell s.prices d,
-                 bidoffer := if s.bidofferSet then cell s.bidoffers d else s.bidoffer,
-                 bidofferPaid := if s.bidofferSet then 0 else s.bidofferPaid }
-      else s
-    let s2 : SecData α := { s1 with rPosition := s1.rPosition.set d s1.position, lastPos := s1.position }
-    let valE : Except Err α :=
-      match s2.price with
-      | none => if isZero cfg.tol s2.position then pure 0 else throw Err.nanPriceOpenPosition
-      | some p => pure (s2.position * p * s2.mult)
-    valE.bind fun v =>
-    let s3 : SecData α := { s2 with value := v, notl := v, rValue := s2.rValue.set d v, rNotl := s2.rNotl.set d v }
-    let s4 : SecData α :=
-      if isZero cfg.tol s3.weight && isZero cfg.tol s3.position then { s3 with needupdate := false } else s3
-    let s5 : SecData α :=
-      if !(eqA s4.outlayAcc 0) then
-        { s4 with rOutlay := s4.rOutlay.set d ((s4.rOutlay.getD d 0) + s4.outlayAcc), outlayAcc := 0 }
-      else s4
-    let s6 : SecData α :=
-      if s5.bidofferSet then { s5 with rBidofferPaid := s5.rBidofferPaid.set d s5.bidofferPaid } else s5
-    pure s6
+    let s2 := secRecordPos d (secDateChange d s)
+    (secMarkValue cfg s2).map fun v =>
+      secRowBidoffer d (secFlushOutlay d (secQuiet cfg (secSetValue d v s2)))
 
 /-- FixedIncomeSecurity.update tail: notional is the position. -/
 def secFiTail (d : Nat) (s : SecData α) : SecData α :=
